@@ -36,7 +36,7 @@ RSA_E3 = [ksrxml.mk_key(P.rsa(1024, 3, i), alg=8) for i in range(2)]
 RSA_512 = [ksrxml.mk_key(P.rsa(1024, 65537, 10 + i), alg=10) for i in range(2)]
 RSA_BIGE = [ksrxml.mk_key(P.rsa(1024, 2**32 + 1, i), alg=8) for i in range(1)]
 RSA_2048 = [ksrxml.mk_key(P.rsa(2048, 65537, 0), alg=8)]
-EC256 = [ksrxml.mk_key(P.ec(256, i), alg=13) for i in range(2)]
+EC256 = [ksrxml.mk_key(P.ec(256, i), alg=13) for i in range(2)] + [ksrxml.mk_key(P.ec_tag_carry(13, 256), alg=13)]     # [2]: the final carry of its key tag sum is discarded (RFC 4034 App. B)
 EC384 = [ksrxml.mk_key(P.ec(384, i), alg=14) for i in range(1)]
 P.save()
 
@@ -78,6 +78,7 @@ try:
         (2, [[("ec256", 0), ("a", 0)], [("ec256", 0), ("ec384", 0)]]),
         (2, [[("2048", 0)], [("2048", 0), ("bige", 0)]]),
         (3, [[("ec256", 0), ("ec256", 1)], [("ec256", 1)], [("ec256", 1), ("a", 3)]]),
+        (2, [[("ec256", 2), ("a", 0)], [("ec256", 2)]]),
     ]
     for rnd in range(SCALE):
         for n, sk in shapes:
